@@ -172,12 +172,17 @@ def scenarios(tier: str) -> tuple[list[C06Scenario], list[C06Scenario]]:
                     dict(id='d1', on='delete', script=d1, **({'labels': {'on': 'yes'}} if filt else {}))]
         if d2:
             handlers.append(dict(id='d2', on='delete', script=d2, optional=True))
-        for variant in ('plain', 'foreign', 'toggle', 'strip', 'restart'):
+        for variant in ('plain', 'foreign', 'foreign2', 'toggle', 'strip', 'restart'):
             user: list[tuple] = [(1.0, 'create', 'a')]
             if filt:
                 user.append((2.0, 'label', 'a', 'on', 'yes'))
             if variant == 'foreign':
                 user += [(3.0, 'addfin0', 'a', 'other/fin'), (10.0, 'delete', 'a'), (11.0, 'status', 'a', 1), (14.0, 'delfin', 'a', 'other/fin')]
+            elif variant == 'foreign2':   # kopf's finalizer between two foreign ones; one of them goes away around the release
+                if d2 == ['temp', 'ok']:
+                    continue
+                user += [(3.0, 'addfin0', 'a', 'other/fin'), (4.0, 'addfin', 'a', 'third/fin'), (10.0, 'delete', 'a'), (14.0, 'delfin', 'a', 'other/fin'),
+                         (18.0, 'delfin', 'a', 'third/fin')]
             elif variant == 'toggle':
                 if not filt:
                     continue
@@ -190,7 +195,7 @@ def scenarios(tier: str) -> tuple[list[C06Scenario], list[C06Scenario]]:
                 user += [(10.0, 'delete', 'a'), (11.0, 'status', 'a', 1)]
             sc = C06Scenario(handlers=handlers, user=user, settings=st, horizon=50.0, variant=variant)
             base.append(sc)
-            if variant in ('foreign', 'toggle') and d1 != ['perm'] and d2 != ['temp', 'ok']:
+            if variant in ('foreign', 'foreign2', 'toggle') and d1 != ['perm'] and d2 != ['temp', 'ok']:
                 deep.append(sc)
     # F2: daemons and a sleeping timer
     for reaction, backoff, timeout in itertools.product(['obeys', 'cancel', 'ignore'], [None, 2.0], [None, 3.0]):
